@@ -20,6 +20,7 @@ RULE = ("values with 0..3 placeholders mixed with literals, wildcards and escape
         "of 0..3 values (strings incl. wildcards, numbers, wrong types, missing); distinct = distinct (rule, pipeline); "
         "non-trivial = at least one placeholder"
         "; 20% of the cases convert twice through the same objects with the variable table changed in between")
+RULE += '; round 5: variable values with blanks at their ends / differing only in them / empty; round 4: placeholder names with blanks, dashes, dots, non-ASCII letters, leading digits'
 ASSUMPTIONS = [
     "placeholders inside regular expressions are only checked for 'conversion fails when unresolved'; their replacement is not modelled",
     "query expressions are compared as (field, expression template, identifier) atoms",
@@ -29,8 +30,10 @@ VALUES = ["%a% -x", "-p%b%", "p%a%q", "%a%", "%a%%b%", "x%a%y%b%z", "%c%", "*%a%
           "%zz%", "100%", "%", "%%", "%a", "%a%?",
           # names are everything between two percent signs: blanks, dashes, dots, non-ASCII letters, digits first
           "%Domain Admins%", "x%dom-adm%", "%d.a%%a%", "%Ünïcode%y", "%1st%"]
-VARS_POOL = {"a": [["v1", "v2"], ["v1"], "single", ["w*", 3], [1.5, "x y"], [], [None], {"k": 1}, ["a\\*b"], [True]],
-             "b": [["b1", "b2"], "B", [2], ["*"], None],
+VARS_POOL = {"a": [["v1", "v2"], ["v1"], "single", ["w*", 3], [1.5, "x y"], [], [None], {"k": 1}, ["a\\*b"], [True],
+                   # values are inserted exactly as configured: blanks at their ends, values differing only in them, the empty string
+                   [" -enc ", "su ", "su"], " lead", ["trail\t", ""]],
+             "b": [["b1", "b2"], "B", [2], ["*"], None, [" b1", "b1"]],
              "c": [["c1"], ["c1", "c2", "c3"]],
              "Domain Admins": [["da1", "da2"], "DA"], "dom-adm": [["m1"]], "d.a": ["p", ["p1", "p2"]], "Ünïcode": [["u"]], "1st": [[1]]}
 
